@@ -401,6 +401,37 @@ theorem C17_dag_composed_no_panic {scripts : List (List Dag.DOp)} (hwb : Dag.WBD
     simp [proj, vinv, hd] at this
 
 open Comp in
+/-- **Nothing is left behind**: when every goroutine has finished, no entity is registered any more — every consumer
+counter is 0 and `mutexes` is empty (the last consumer of an entity drops it in the final critical section of its
+`Unlock`/`RUnlock`; the harness checks the same on the real object after every arrival case and stress run). -/
+theorem C17_dag_composed_no_leak {scripts : List (List Dag.DOp)} (hwb : Dag.WBD scripts) {c : Cfg CSh CTh}
+    (hr : Reach Comp.sys (Comp.initCfg scripts) c) (hall : ∀ t ∈ c.2, t.done) :
+    ∀ x, c.1.cnt x = 0 ∧ c.1.ent x = none := by
+  intro x
+  have h := cinv_reach hwb hr
+  have h0 : c.1.cnt x = 0 := by
+    rw [h.cnt x]
+    apply Wait.sumL_zero
+    intro t ht
+    obtain ⟨hc, hs⟩ := hall t ht
+    have hni : isInner t = false := by simp [isInner, hc]
+    have hsi := (h.th t ht).si
+    simp only [SI, hc, hs, Dag.okD, List.isEmpty_iff] at hsi
+    rw [regc_outside hni]
+    simp [hsi, unrg, hc]
+  exact ⟨h0, (h.rw.z x).mp h0⟩
+
+/-- Non-vacuity of `C17_dag_composed_no_leak`: two goroutines run `Lock(1); RLock(2); RUnlock(2); Unlock(1)` and
+`RLock(1,2); RUnlock(2,1)` one after the other to the end; everybody has finished, and the registry is empty again. -/
+example :
+    let c := Conc.runSched Comp.sys
+      (Comp.initCfg [[.lock 1, .rlock [2], .runlock [2], .unlock 1], [.rlock [1, 2], .runlock [2, 1]]])
+      (List.replicate 30 (0, 0) ++ List.replicate 20 (1, 0))
+    c.2.map (fun t => (t.ctl, t.script, t.held)) = [(.idle, [], []), (.idle, [], [])] ∧
+      [c.1.cnt 1, c.1.cnt 2] = [0, 0] ∧ [c.1.ent 1, c.1.ent 2] = [none, none] ∧ c.1.next = 4 := by
+  decide
+
+open Comp in
 /-- **Unlocking something that is not held panics instead of corrupting state — DAGMutex** (the repair of the finding
 "`Unlock`/`RUnlock` modify the registry before they panic").  From *any* state (no assumption on the scripts: misuse
 is the case in which the invariants above do not hold):
